@@ -7,6 +7,7 @@ import (
 	"math"
 	"os"
 	"runtime"
+	"runtime/debug"
 	"sort"
 	"strings"
 
@@ -385,10 +386,25 @@ func c07Check(cs *h.Case, api string, got pg.Value, n pnode, opts *pg.Options) b
 func runC07(c *h.Ctx) {
 	// first, so that the worker death it causes on the unchanged tree loses no counters of later cases
 	c07HeldNotFound(c)
-	c.Run("preads", c.N(12000, 300000), func(cs *h.Case) {
+	c.Run("preads", c.N(12000, 300000), func(cs *h.Case) { c07Reads(cs, false) })
+	// field numbers at and above 2^28 (5-byte tags whose shifted value needs 32 bits). dynamicgo sizes a message's number
+	// table by its largest field number - 2 to 4 GiB here - so this is a handful of single-message schemas
+	c.Run("huge-field-numbers", c.N(12, 48), func(cs *h.Case) {
+		c07Reads(cs, true)
+		runtime.GC()
+		debug.FreeOSMemory()
+	})
+}
+
+func c07Reads(cs *h.Case, huge bool) {
+	{
 		cfg := gen.PCfg{MaxDepth: 2, MaxFields: 6, Nested: cs.R.Bool(), Enums: true, BigNums: true,
 			// bool map keys are outside the property's domain (map<int*|uint*|string, ...>) and are rejected by design
 			KeyKinds: []string{"int32", "int64", "uint32", "uint64", "sint32", "sint64", "fixed32", "fixed64", "sfixed32", "sfixed64", "string"}}
+		if huge {
+			cfg = gen.PCfg{MaxDepth: 0, MaxFields: 7, HugeNums: true, NoMaps: true, KeyKinds: cfg.KeyKinds}
+			cs.Cover("huge_field_number_schemas")
+		}
 		if prof := os.Getenv("VERIF_C07_PROFILE"); prof != "" {
 			for _, f := range strings.Split(prof, ",") {
 				switch f {
@@ -700,7 +716,7 @@ func runC07(c *h.Ctx) {
 		if cs.I == 2 {
 			cs.Sample(map[string]interface{}{"proto": pc.Text, "message": fmt.Sprint(m), "bytes": hexs(b), "paths": len(nodes)})
 		}
-	})
+	}
 }
 
 // c07HeldNotFound is the deterministic witness of the known finding C07-K1: GetByPath of an absent field returns
